@@ -64,9 +64,9 @@ Qed.
 Lemma existsb_r_eqb r l : In r l -> existsb (r_eqb r) l = true.
 Proof. intros H. apply existsb_exists. exists r. split; [exact H | apply r_eqb_refl]. Qed.
 
-Lemma holds_yaml table tree w0 ncalls sch post :
-  valid (Yaml table tree w0 ncalls sch post) ->
-  holds (Yaml table tree w0 ncalls sch post) (run_model (Yaml table tree w0 ncalls sch post)) = [].
+Lemma holds_yaml table tree w0 ncalls st sch post :
+  valid (Yaml table tree w0 ncalls st sch post) ->
+  holds (Yaml table tree w0 ncalls st sch post) (run_model (Yaml table tree w0 ncalls st sch post)) = [].
 Proof.
   intros [Hlen Hord]. cbn [holds run_model]. rewrite Hord.
   assert (Hm : y_member (y_specs table tree w0 sch)
